@@ -14,11 +14,12 @@ import (
 func (h H) transferTargetEligibility(rule string) {
 	fn := h.fn("raft:(*leader).tryTransfer")
 	fi := h.P.Info(fn)
-	// the target variable: the phi tested against 0 before the timeout-now request is built
+	// the target variable: what the timeout-now request's connection is opened
+	// to — a value merged from the candidates and 0 (nothing eligible)
 	var target *ssa.Phi
-	for _, b := range fn.Blocks {
-		for _, in := range b.Instrs {
-			if p, ok := in.(*ssa.Phi); ok && strings.HasPrefix(fi.Sym(p).String(), "phi(0, ") {
+	for _, c := range h.P.CallsTo(fn, h.fn("raft:(*Raft).getConnPool")) {
+		if len(c.Common().Args) >= 2 {
+			if p, ok := c.Common().Args[1].(*ssa.Phi); ok {
 				target = p
 			}
 		}
@@ -122,17 +123,16 @@ func (h H) transferReplyMeaning(rule string) {
 	for k, c := range h.P.CallsTo(rel, tr) {
 		site := h.site(rel, tr, k)
 		arg := c.Common().Args[1]
-		phi, ok := arg.(*ssa.Phi)
-		if !h.C.Check(rule+" release-arg", site, ok, h.pos(c), "unexpected shape of the transfer result in leader.release: "+rfi.Sym(arg).String()) {
+		srcs := h.valueSources(arg, c.(ssa.Instruction))
+		if !h.C.Check(rule+" release-arg", site, len(srcs) >= 2, h.pos(c), "unexpected shape of the transfer result in leader.release: "+rfi.Sym(arg).String()) {
 			continue
 		}
 		nNil := 0
-		for i, e := range phi.Edges {
-			if cst, isC := e.(*ssa.Const); isC && cst.IsNil() {
+		for _, src := range srcs {
+			if cst, isC := src.Val.(*ssa.Const); isC && cst.IsNil() {
 				nNil++
-				pred := phi.Block().Preds[i]
-				last := pred.Instrs[len(pred.Instrs)-1]
-				r := rfi.MustCrossAtom(last, core.MkAtom("leader.Raft.storage.term", ">", "leader.transfer.term"))
+				want := core.MkAtom("leader.Raft.storage.term", ">", "leader.transfer.term")
+				r := h.sourceGated(src, func(a core.Atom) bool { return a.Implies(want) })
 				h.C.Check(rule+" success-iff-term-advanced", site, r.OK, h.pos(c), "a leadership transfer is reported successful although the term did not advance past the term at request time: "+r.Witness)
 			}
 		}
